@@ -86,5 +86,29 @@ PROPS = {
         "rule": """engine server: the server half of Behaviour driven op by op through the public NetworkBehaviour interface (new connection, wantlist message, new blocks, disconnect, release of one store.get call, poll to Pending) with a scripted blockstore whose calls complete only when released, in any order; histories over 1-3 peers x 2-4 CIDs (updates and full wantlists with wants, cancels, duplicates, cancel+want of one CID in one message, undecodable CIDs; hits, misses, failures, unknown call numbers; blocks arriving between registration and completion) driven to quiescence at the end, plus wantlists of 0..1300 (quick) / 5000 (thorough) entries, full and update. After every op the outputs (store calls started, QueueOutgoingMessages per peer) and a snapshot of the server state are compared with the model; the oracle folds the Bitswap reference view over the op history and the implementation's outputs only. Every history is non-trivial; distinct = distinct op lists.""",
         "assumptions": ["32 <= S <= 255"],
     },
+    "C10": {
+        "engines": [{"name": "codec", "n": {"quick": 1200, "thorough": 40000}, "profiles": ["debug", "release"], "oracle": "oracle_C10"}],
+        "rule": "engine codec (debug = overflow-checked and release profile; in release every decode runs in a confined child process): "
+                "length prefixes of every varint byte length 1..11 (values around every power of two, around the 4 MiB limit, overlong / overflowing / "
+                "non-minimal encodings) followed by 0, 1, 3 and 40 payload bytes; all frames of <= 3 (quick) / 4 (thorough) bytes over a 14-byte boundary alphabet; "
+                "encode/decode of generated message values; every proper prefix of small frames; the harness's own non-canonical encodings; mutated frames. "
+                "Non-trivial = a non-empty frame; distinct = distinct input terms.",
+        "exhaustive_note": "every proper prefix of each generated small frame; all frame bodies of length <= 3 (quick) / 4 (thorough) over a 14-byte alphabet",
+        "assumptions": ["64-bit usize", "message values: byte strings of bytes, int32 fields as u32 bit patterns, nested messages shorter than 2^32 (wf_message)",
+                        "FramedRead chunking is proved about Framed.v (model of asynchronous-codec 0.7 FramedRead2) and exercised by the stream engine"],
+    },
+    "C11": {
+        "engines": [{"name": "codec", "n": {"quick": 1200, "thorough": 40000}, "profiles": ["debug", "release"], "oracle": "oracle_C11", "count": ["in_class_case"]}],
+        "tie_lemmas": ["tie_reader_tables", "tie_writer_tables", "tie_tags_conform", "tie_enums"],
+        "rule": "engine codec (debug = overflow-checked and release profile; in release every decode runs in a confined child process): "
+                "length prefixes of every varint byte length 1..11 (values around every power of two, around the 4 MiB limit, overlong / overflowing / "
+                "non-minimal encodings) followed by 0, 1, 3 and 40 payload bytes; all frames of <= 3 (quick) / 4 (thorough) bytes over a 14-byte boundary alphabet; "
+                "encode/decode of generated message values; every proper prefix of small frames; the harness's own non-canonical encodings; mutated frames. "
+                "Non-trivial = a non-empty frame; distinct = distinct input terms.",
+        "assumptions": ["the independent implementation is RefProto.ref_decode (written from message.proto only) on the decoding side and the harness's own "
+                        "non-canonical protobuf writer (harness/src/e_codec.rs nc_*) on the encoding side",
+                        "class of accepted encodings (in_class): lengths < 2^32, singular wantlist field at most once, 32-bit scalars within range; "
+                        "quick-protobuf silently truncates outside it"],
+    },
 }
 NOT_CLAIMED = {}
